@@ -36,7 +36,7 @@ MAX_S = {"quick": 900, "thorough": 7200}
 PATTERNS2 = [(1, 0), (0, 1), (1, 1), (1, -1), (-1, 1)]
 RHS = [-1, 1, 2]
 TYPES = "ULSN"
-BOUNDS2 = [((0, 2), (0, 2)), ((-1, 1), (0, 3)), ((0, 3), (1, 1)), ((-1, 1), (-1, 1))]
+BOUNDS2 = [((0, 2), (0, 2)), ((-1, 1), (0, 3)), ((0, 3), (1, 1)), ((-1, 1), (-1, 1)), ((0.3, 0.5), (0, 2)), ((0, 0.5), (0.25, 3))]
 COSTS2 = [(1, -1), (-1, -2), (0, 1), (-1, 0.5)]
 BOOLS2 = [(), (0,), (0, 1)]
 MAPVARS = ["identity", "reversed", "duplicated", "missing0"]
@@ -152,7 +152,7 @@ def run_tiny(case):
     any_success = False
     for cost in COSTS2[:case.get("ncost", 4)]:
         c = np.array(cost, float)
-        ex = R5.solve([F(str(v)) for v in cost], [F(int(v)) for v in l], [F(int(v)) for v in u],
+        ex = R5.solve([F(str(v)) for v in cost], [F(str(b_[0])) for b_ in case["bounds"]], [F(str(b_[1])) for b_ in case["bounds"]],
                       [[int(a) for a in r] for r in A.tolist()], [F(int(v)) for v in b], types, bools)
         exact = None if ex is None else (float(ex[0]), [float(v) for v in ex[1]])
         solvers = MIP_SOLVERS if bools else LP_SOLVERS
